@@ -1,6 +1,6 @@
 """C12: with TLS configured, https/wss traffic is never sent in the clear (level: other; tls configuration)."""
 import re
-from core import norm, L_call, L_variant, arms, assigns_to_return, closure_arg_of, sig, const_of, AbsPaths
+from core import norm, L_call, L_variant, arms, assigns_to_return, closure_arg_of, sig, const_of, AbsPaths, STR_EQ
 from mir import op_place
 import fwd
 import panics
@@ -36,63 +36,40 @@ def C12_1(ctx, facts):
     ctx.floor("TlsTransport::call|tls-connect", len(tls_calls), 1, "TLS connect in the Tls arm")
     ctx.floor("TlsTransport::call|plain-connect-in-tls-arm", len(plain_in_tls), 1, "plain connect in the Tls arm")
 
-    # the scheme test, whichever way it is spelled (is_some_and + matches!, matches!(.., Some(..)), a match, == chains): string
-    # comparisons of uri.scheme_str() with literals.  An edge is `secure` when it is the true edge of such a comparison.
-    def scheme_cmp(lab):
-        if lab.kind != "bool" or lab.value is None or lab.cond.kind != "call":
-            return None
-        c = lab.cond.site
-        if not (c.matches(r"PartialEq.*::eq$|str::traits::.*::eq$") and len(c.args) == 2):
-            return None
-        lit = None
-        other = None
-        for a_ in c.args:
-            k = a_.get("k")
-            v = (k or {}).get("v")
-            if v is None and op_place(a_) is not None:
-                rr0 = f.roots(a_, through_calls=False)
-                cs_ = [str(r.desc) for r in rr0 if r.kind == "const" and str(r.desc).startswith('"')]
-                v = cs_[0] if len(cs_) == 1 and len(rr0) == 1 else None
-            if v is not None and str(v).startswith('"'):
-                lit = str(v).strip('"')
-            else:
-                other = a_
-        if lit is None or other is None:
-            return None
-        if not any(r.kind == "call" and r.site.is_("http::Uri::scheme_str", "http::uri::Uri::scheme_str") for r in f.roots(other)):
-            return None
-        return (lit, lab.value)
-
-    lits = set()
-    secure = []
-    for (x, y, lab) in f.edges():
-        if lab is None:
+    # transport selection as a decision table: with a TLS configuration (braid = Tls), which connect is reached for which
+    # URI scheme?  Evaluated abstractly on the expanded unit (scheme_str() is the scenario input; string comparisons with
+    # literals are computed), so `is_some_and(matches!)`, `matches!(.., Some(..))`, `==` chains, helper functions, merged or
+    # split match arms all give the same table.
+    adt = facts.adt("client::conn::transport::TlsTransport")
+    names = [fl["name"] for fl in adt["variants"][0]["fields"]] if adt else []
+    if "braid" not in names and names:
+        bi = [i for i, fl in enumerate(adt["variants"][0]["fields"]) if "InnerBraid" in fl["ty"]]
+        bidx = bi[0] if bi else None
+    else:
+        bidx = names.index("braid") if names else None
+    if bidx is None:
+        return ctx.missing("TlsTransport|braid-field", "field of TlsTransport holding the InnerBraid not found")
+    tlsb = {c.bb for c in tls_calls}
+    plainb = {c.bb for c in plain_in_tls}
+    self_val = ("refval", ("variant", "TlsTransport", ((bidx, ("variant", "Tls", ((0, ("const", "INNER")),))),)))
+    rows = 0
+    for scheme in ("https", "wss", "http", "ws", "ftp", None):
+        sv = ("variant", "None", ()) if scheme is None else ("variant", "Some", ((0, ("const", '"%s"' % scheme)),))
+        oracles = [(r"Uri::scheme_str$", lambda site, vals, sv=sv: sv), STR_EQ]
+        try:
+            outs = AbsPaths(f, oracles=oracles).outcomes(state={1: self_val}, observe_blocks=tlsb | plainb)
+        except AbsPaths.Undecided as e:
+            ctx.undecided("TlsTransport::call|row|%s" % scheme, str(e), f.where())
             continue
-        sc = scheme_cmp(lab)
-        if sc is None:
-            continue
-        lits.add(sc[0])
-        if sc[1] is True:
-            secure.append((x, y))
-    ctx.floor("TlsTransport::call|scheme-test", len(secure), 1, "comparisons of uri.scheme_str() with a literal")
-    ctx.check(lits == {"https", "wss"}, "TlsTransport::call|scheme-literals", "the secure schemes are exactly \"https\" and \"wss\"", "the scheme test compares against %s" % sorted(lits))
-    ap = AbsPaths(f)
-    sec = set(secure)
-    for c in tls_calls:
-        ok, w = f.guarded(c.bb, lambda lab: scheme_cmp(lab) is not None and scheme_cmp(lab)[1] is True)
-        ctx.check(ok, "TlsTransport::call|tls-iff-secure-scheme", "the TLS connect is chosen only when the scheme compared equal to a secure literal", "TLS connect reachable without the scheme test", c.where(), f.path_desc(w))
-    for c in plain_in_tls:
-        bad = None
-        for (x, y) in secure:
-            try:
-                reached, _ = ap.explore(y)
-            except AbsPaths.Undecided as e:
-                ctx.undecided("TlsTransport::call|plain-only-insecure-scheme", str(e), c.where())
-                reached = set()
-            if c.bb in reached:
-                bad = (x, y)
-        ctx.check(bad is None, "TlsTransport::call|plain-only-insecure-scheme", "with TLS configured no feasible path from a successful secure-scheme comparison reaches the plain connect",
-                  "with TLS configured an https/wss request can be connected in the clear", c.where())
+        rows += 1
+        seen_tls = any(vis & tlsb for (_, vis) in outs)
+        seen_plain = any(vis & plainb for (_, vis) in outs)
+        secure = scheme in ("https", "wss")
+        ok = (seen_tls and not seen_plain) if secure else (seen_plain and not seen_tls)
+        ctx.check(ok and bool(outs), "TlsTransport::call|row|scheme=%s" % scheme,
+                  "with TLS configured a %s request is connected %s" % (scheme, "through the TLS wrapper only" if secure else "in the clear (not a TLS scheme)"),
+                  "with TLS configured a %s request reaches: TLS connect=%s, plain connect=%s" % (scheme, seen_tls, seen_plain), f.where())
+    ctx.floor("TlsTransport::call|table-rows", rows, 6, "schemes evaluated")
     # plain arm: nothing to select
     ctx.ok("TlsTransport::call|plain-arm", "without a TLS configuration every request uses the plain transport (the property is conditional on a configuration)")
 
